@@ -49,6 +49,15 @@ class ProtocolType(Protocol):
     VERSION: str
 
 
+def _major_minor(version: str) -> tuple[int, int]:
+    """Return the major and minor parts of a version."""
+    awesome_version = AwesomeVersion(version)
+    major, minor = awesome_version.major, awesome_version.minor
+    if major is None or minor is None:
+        raise ValueError(f"Invalid protocol version: {version}")
+    return int(major), int(minor)
+
+
 @cache
 def get_protocol(protocol_version: str) -> ProtocolType:
     """Return the protocol module for the protocol_version."""
@@ -56,7 +65,7 @@ def get_protocol(protocol_version: str) -> ProtocolType:
         (
             PROTOCOL_VERSIONS[_protocol_version]
             for _protocol_version in sorted(PROTOCOL_VERSIONS, reverse=True)
-            if AwesomeVersion(protocol_version) >= AwesomeVersion(_protocol_version)
+            if _major_minor(protocol_version) >= _major_minor(_protocol_version)
         ),
         protocol_14,
     )
